@@ -228,7 +228,7 @@ def vmdk_chain(draw, tier):
         hint_style = draw(st.sampled_from(["plain", "relative", "windows", "unix-abs"]))
         layers.append({"extents": exts, "top_kind": top_kind, "parent_dir": pdir, "hint_style": hint_style,
                        "crlf": draw(st.booleans())})
-    name_style = draw(st.sampled_from(["plain", "plain", "equals", "spaces", "hash"]))
+    name_style = draw(st.sampled_from(["plain", "plain", "equals", "spaces", "hash", "unicode"]))
     mode = draw(st.sampled_from(["ok", "ok", "ok", "ok", "ok", "missing", "nameless"]))
     if mode == "nameless" and layers[-1]["top_kind"] != "monolithic":
         mode = "ok"
@@ -270,7 +270,8 @@ def hdd_chain(draw, tier):
     return {"family": "hdd", "storages": storages, "chain": chain, "side": side, "write_top_guid": draw(st.booleans()),
             "shuffle": draw(st.booleans()), "path_style": path_style, "size": start * 512, "unit": 512 * 16,
             # the process's working directory holds files with the very names the descriptor uses (another VM's disk)
-            "cwd_decoy": draw(st.sampled_from([False, False, True]))}
+            "cwd_decoy": draw(st.sampled_from([False, False, True])),
+            "image_order": draw(st.sampled_from([None, None, "reverse", "rotate"]))}
 
 
 @st.composite
@@ -524,7 +525,7 @@ def run_vmdk(spec, out):
     from dissect.hypervisor.disk.vmdk import VMDK
 
     d = scratch_dir()
-    _NAME[0] = {"equals": "base=golden ", "spaces": "my disk (1) ", "hash": "snap #"}.get(spec.get("name_style"), "layer")
+    _NAME[0] = {"equals": "base=golden ", "spaces": "my disk (1) ", "hash": "snap #", "unicode": "dïsk-中-\U0001F98A-"}.get(spec.get("name_style"), "layer")
     try:
         n = len(spec["layers"])
         lays = []
@@ -650,6 +651,12 @@ def run_hdd(spec, out):
                 fh.write_to(fpath)
                 rec = {"relative": fname, "absolute": os.path.join(root, fname)}.get(style, f"{recorded_root}/{fname}")
                 images.append({"guid": g, "type": im["type"], "file": rec})
+            # the <Image> elements of a storage in chain order, reversed or rotated: they are looked up by GUID, not by position
+            how = spec.get("image_order")
+            if how == "reverse":
+                images = images[::-1]
+            elif how == "rotate" and len(images) > 1:
+                images = images[1:] + images[:1]
             desc_storages.append({"start": s["start"], "end": s["end"], "images": images})
         if style == "missing":
             os.remove(first_file)
